@@ -3,7 +3,7 @@
    AddWithWeight that the model and the check rely on. *)
 From Coq Require Import List ZArith Bool Lia.
 From GZgen Require Import C15Consts.
-From GZ Require Import C15.Model C15.Check.
+From GZ Require Import C15.Model C15.Cluster C15.Check.
 Import ListNotations.
 Open Scope Z_scope.
 
@@ -55,3 +55,28 @@ Proof.
   { rewrite !Z.quot_div_nonneg by nia. apply Z.div_le_mono; nia. }
   lia.
 Qed.
+
+(* ---- the cleaner's retry delays (core/stores/cache/cleaner.go, regenerated) ------------------ *)
+Fixpoint increasing (l : list Z) : Prop :=
+  match l with
+  | a :: ((b :: _) as l') => a < b /\ increasing l'
+  | _ => True
+  end.
+
+(* a failed DEL is retried (the table is not empty), every delay is at least one tick of the wheel
+   (the countdown of Cluster.tick_one is meaningful), and the delays grow strictly: nextDelay's
+   `switch` has distinct labels, so reading it as "the next element of the list" (Cluster.next_delay)
+   is faithful *)
+Lemma clean_delays_wellformed :
+  cleanDelays <> [] /\ Forall (fun d => 1 <= d) cleanDelays /\ increasing cleanDelays.
+Proof.
+  unfold cleanDelays. split; [discriminate|]. split; [repeat constructor; lia | cbn; lia].
+Qed.
+
+(* the chain ends: after the last delay the cleaner gives up (and reports), it does not loop *)
+Lemma clean_delays_end : next_delay cleanDelays (last cleanDelays 0) = None.
+Proof. vm_compute. reflexivity. Qed.
+
+(* the first retry comes one tick after the failed DEL *)
+Lemma clean_first_retry_next_tick : hd 0 cleanDelays = 1.
+Proof. reflexivity. Qed.
